@@ -113,6 +113,8 @@ func runC17(c *Ctx) {
 	checkApplyUnconditional(c)
 	checkMutatorLocksPaired(c)
 	checkChangeLabelsRecordsOnlyChanges(c)
+	c.Doc("R11.3", "RepoCacheBug.NewRaw commits the bug before it is registered: a refused creation leaves no trace in the cache")
+	checkCreationRegisters(c)
 	// the text recorded is the text requested, up to what validation refuses (shared with C16)
 	checkCleanupAgreesWithSafe(c)
 	c.Doc("R11.2", "every exported method of the cache entities that stages or commits operations calls notifyUpdated before it succeeds (what later queries list and sort is the excerpt)")
